@@ -90,6 +90,7 @@ def inventory(rep, R, what, found, reviewed, why, helpers=True):
 
 # =========================================================================== C06
 
+REC_OFFSET = "pasfmt_core::defaults::reconstructor::DelphiLogicalLinesReconstructor::offset_for_token"
 CURSOR_BODIES = [
     "<pasfmt_core::defaults::reconstructor::DelphiLogicalLinesReconstructor as pasfmt_core::traits::LogicalLinesReconstructor>::process_cursors",
     "<pasfmt_core::defaults::reconstructor::DelphiLogicalLinesReconstructor as pasfmt_core::traits::LogicalLinesReconstructor>::process_cursors::{closure#1}",
@@ -359,7 +360,9 @@ def original_ws_only_for_ignored(prog, rep, R):
             for k in cands:
                 if k in out:
                     continue
-                if callers_of[k] and callers_of[k] <= {_root(x) for x in out}:
+                outr = {_root(x) for x in out}
+                # reached only from the emission step — or shared with the cursor code that measures what is emitted
+                if callers_of[k] & outr and callers_of[k] <= outr | {_root(x) for x in CURSOR_BODIES} | {REC_OFFSET}:
                     out.add(k)
                     changed = True
         return out
